@@ -138,6 +138,34 @@ func storesTo(a ssa.Value) []*ssa.Store {
 	return res
 }
 
+// CopyChain lists the local cells a struct value was copied through: v is a load of cell A, A was last written with a
+// load of cell B, ... (whole-value copies introduced by parameter passing, in the source or by the inlining normal
+// form). Only unambiguous steps are followed: the one store to the cell, or the last one before the load in its block.
+func CopyChain(v ssa.Value) []ssa.Value {
+	var res []ssa.Value
+	for i := 0; i < 16 && v != nil; i++ {
+		switch x := v.(type) {
+		case *ssa.ChangeType:
+			v = x.X
+			continue
+		case *ssa.UnOp:
+			a, ok := x.X.(*ssa.Alloc)
+			if x.Op != token.MUL || !ok {
+				return res
+			}
+			res = append(res, a)
+			st := reachingStore(a, x)
+			if st == nil {
+				return res
+			}
+			v = st.Val
+			continue
+		}
+		return res
+	}
+	return res
+}
+
 // StoresTo is the exported form of storesTo.
 func StoresTo(a ssa.Value) []*ssa.Store { return storesTo(a) }
 
